@@ -131,6 +131,22 @@ def case_pdf_ops(R, D, diag):
             same_obj(fails, "condition_on_x", m.regs.get(m.slice(full, comb)), m.regs.get(part), params, tol=1e-7)
         W = rng.standard_normal((R, max(1, D - 1), D))
         same_obj(fails, "get_density_of_linear_sum", m.regs.get(m.slice(m.linear_sum(p.reg, W), idx)), m.regs.get(m.linear_sum(ps, W[w])), params)
+        # a density on the left of a product: the result is a measure whose slices are the products of the slices
+        for fk in ("constant", "linear", "onerank", "general"):
+            ff = mk_factor(m, rng, fk, 2, D)
+            full = m.multiply(p.reg, ff.reg, bool(rng.integers(0, 2)))          # [R * 2]
+            part = m.multiply(ps, ff.reg, False)
+            comb = np.array([int(a) * 2 + b for a in w for b in range(2)])
+            same_obj(fails, f"pdf-multiply:{fk}", m.regs.get(m.slice(full, comb)) if m.regs.get(full) is not None else None, m.regs.get(part), params)
+            if m.regs.get(full) is not None:
+                x2 = gen.points(rng, 2, D); x2r = m.arr(x2)
+                e_full = np.asarray(m.regs[m.evalln(full, x2r)])[comb]
+                sl = m.slice(full, comb)
+                if m.regs.get(sl) is not None:
+                    fail_if(fails, PROPERTY, f"pdf-multiply:{fk}:slice-evaluate", "slice of the product evaluates differently from the product's components",
+                            np.asarray(m.regs[m.evalln(sl, x2r)]), e_full, params=params)
+                    la = np.asarray(m.regs[m.query("log_integral", full)])[comb]; lb_ = np.asarray(m.regs[m.query("log_integral", sl)])
+                    fail_if(fails, PROPERTY, f"pdf-multiply:{fk}:slice-mass", "mass of the sliced product != sliced masses", lb_, la, params=params)
         # sample: the draws of component r only depend on component r and the key
         s_full = m.sample(p.reg, 3, 4)
         # update(idx, d) replaces exactly the addressed components
